@@ -217,4 +217,168 @@ def anTrace : Alpha → List ANOp → Option (List ANObs)
     | none => none
     | some (a', r) => (anTrace a' ops).map fun rest => { ret := r, events := a'.events } :: rest
 
+/-! ### WindowManager, sliding and session mode
+
+In these two modes the manager keeps *fixed* windows `[t₀, t₀ + d)` that start at the timestamp of the event they
+were opened for (`calculate_window_start = event_time`; a `Session { timeout }` is treated exactly like `Sliding`,
+the timeout is never read). An event goes to ONE window — the code's loop `break`s at the first window that accepts:
+the earliest-starting live window whose span contains the timestamp — or opens a new window at its own timestamp. -/
+
+/-- the windows of `o` whose half-open span contains `t`, first = smallest start (`o` is listed by start) -/
+def firstHolder (o : List WObs) (t : Nat) : Option WObs :=
+  o.find? (fun w => decide (w.start ≤ t) && decide (t < w.stop))
+
+/-- where the receiving window starts: at the first holder, or — if no window's span contains `e` — at `e.ts` -/
+def recvStart (o : List WObs) (t : Nat) : Nat :=
+  match firstHolder o t with
+  | some h => h.start
+  | none => t
+
+/-- One `process_event e` of a sliding/session manager; `o`/`o'` = `active_windows` before/after, `e` a new event. -/
+def wmfStepOk (div : Int → Nat → Nat) (d cap maxW : Nat) (o : List WObs) (e : Ev) (o' : List WObs) : Bool :=
+  -- windows are listed by strictly increasing start, at most `maxW`
+  strictInc (o'.map (·.start))
+  && decide (o'.length ≤ maxW)
+  && o'.all (fun w =>
+      -- fixed span of the configured duration
+      w.stop == w.start + d
+      -- no window holds an event outside its span
+      && w.events.all (fun x => decide (w.start ≤ x.ts) && decide (x.ts < w.stop))
+      -- windows that ended at or before the event's time are gone
+      && decide (e.ts < w.stop)
+      -- the receiving window holds its previous content plus `e` (last in arrival order; cap: oldest out);
+      -- every other window is an old one, untouched
+      && (if w.start == recvStart o e.ts then keptByCap cap (eventsAt o w.start ++ [e]) w.events
+          else w.events == eventsAt o w.start && o.any (fun w0 => w0.start == w.start))
+      && aggOk div w.events w.agg)
+  -- the receiving window exists (unless the manager may keep no window, or the duration is below 1 ms) …
+  && (maxW == 0 || d == 0 || o'.any (fun w => w.start == recvStart o e.ts))
+  -- … its span contains `e` …
+  && o'.all (fun w => w.start != recvStart o e.ts || (decide (w.start ≤ e.ts) && decide (e.ts < w.stop)))
+  -- … `e` sits in exactly one window
+  && occurrences e o' == (if maxW ≥ 1 ∧ cap ≥ 1 ∧ d ≥ 1 then 1 else 0)
+  -- and a window that has not ended yet is only ever dropped by the window limit
+  && (o'.length == maxW || o.all (fun w0 => !(decide (e.ts < w0.stop)) || o'.any (fun w => w.start == w0.start)))
+
+def wmfRunOk (div : Int → Nat → Nat) (d cap maxW : Nat) : List WObs → List Ev → List (List WObs) → Bool
+  | _, [], [] => true
+  | o, e :: es, o' :: os => wmfStepOk div d cap maxW o e o' && wmfRunOk div d cap maxW o' es os
+  | _, _, _ => false
+
+/-! ### WindowedStream::new, sliding / session configuration
+
+Overlapping windows on a grid: starts `lo, lo + step, lo + 2·step, … ≤ hi` (`lo`/`hi` = oldest/newest timestamp,
+`step` = half the duration, at least 1 ms); every window holds every event whose timestamp lies in its span. -/
+
+def wssOk (div : Int → Nat → Nat) (d cap : Nat) (es : List Ev) (o : List WObs) : Bool :=
+  -- windows are listed by strictly increasing start
+  strictInc (o.map (·.start))
+  && o.all (fun w =>
+      -- a point of the grid, not beyond the newest event
+      decide (minTs es ≤ w.start) && (w.start - minTs es) % (max (d / 2) 1) == 0 && decide (w.start ≤ maxTs es)
+      && w.stop == w.start + d
+      -- exactly the events of its span, in arrival order (cap: oldest out)
+      && keptByCap cap (es.filter fun x => decide (w.start ≤ x.ts) && decide (x.ts < w.start + d)) w.events
+      -- no empty window
+      && !w.events.isEmpty
+      && aggOk div w.events w.agg)
+  -- every grid point whose span holds an event has its window (unless windows may hold nothing)
+  && (cap == 0 || (List.range (maxTs es - minTs es + 1)).all (fun k =>
+        k % (max (d / 2) 1) != 0
+        || !(es.any fun x => decide (minTs es + k ≤ x.ts) && decide (x.ts < minTs es + k + d))
+        || o.any (fun w => w.start == minTs es + k)))
+  -- so (duration ≥ 1 ms) every event lies in the span of at least one window
+  && (cap == 0 || d == 0 || es.all (fun x => o.any fun w => decide (w.start ≤ x.ts) && decide (x.ts < w.stop)))
+
+/-! ### StreamAlphaNode, session window
+
+The node keeps the events of the open session. Its notion of "last activity" is the timestamp of the event that
+*arrived* last (not the newest timestamp): `last` below is that ghost value, reconstructed from the history. -/
+
+/-- does an event with timestamp `ts` continue the open session? (`saturating_sub`: a late event always does) -/
+def continues (timeout : Nat) (last : Option Nat) (ts : Nat) : Bool :=
+  match last with
+  | none => true
+  | some l => decide (ts - l ≤ timeout)
+
+/-- the ghost after one `process_event` -/
+def sessLast (timeout : Nat) (last : Option Nat) (op : ANOp) : Option Nat :=
+  if op.pass then (if op.now - op.e.ts > timeout then none else some op.e.ts) else last
+
+/-- one `process_event` at clock `now` of a node with a session window -/
+def ansStepOk (timeout cap : Nat) (last : Option Nat) (o : List Ev) (op : ANOp) (o' : ANObs) : Bool :=
+  -- every event of the node's stream/type is accepted (a session never refuses)
+  o'.ret == op.pass
+  && (if op.pass then
+        -- the accepted event is itself older than the timeout at the clock: the session is closed, nothing is kept
+        if op.now - op.e.ts > timeout then o'.events.isEmpty
+        -- closer than the timeout to the last arrival: same session; a larger gap starts a new one with `e` alone
+        else keptByCap cap ((if continues timeout last op.e.ts then o else []) ++ [op.e]) o'.events
+      else o'.events == o)
+
+def ansRunOk (timeout cap : Nat) : Option Nat → List Ev → List ANOp → List ANObs → Bool
+  | _, _, [], [] => true
+  | last, o, op :: ops, o' :: os =>
+    ansStepOk timeout cap last o op o' && ansRunOk timeout cap (sessLast timeout last op) o'.events ops os
+  | _, _, _, _ => false
+
+def ansTrace : AlphaS → List ANOp → List ANObs
+  | _, [] => []
+  | a, op :: ops =>
+    { ret := (a.process op.now op.pass op.e).2, events := (a.process op.now op.pass op.e).1.events }
+      :: ansTrace (a.process op.now op.pass op.e).1 ops
+
+/-! ### First, Last, CountDistinct, CountBy, Percentile, StdDev-definedness over exactly the listed events -/
+
+structure Agg2 where
+  first : Option Nat
+  last : Option Nat
+  distinct : Nat
+  countBy : List (Int × Nat)          -- entries listed by increasing key
+  pcts : List (Option Int)            -- percentiles 0, 25, 50, 75, 100
+  stdDefined : Bool
+deriving Repr, DecidableEq
+
+/-- how many values do not occur again later in the list = the number of distinct values -/
+def distinctCount : List FVal → Nat
+  | [] => 0
+  | x :: xs => (if x ∈ xs then 0 else 1) + distinctCount xs
+
+def strictIncInt : List Int → Bool
+  | [] => true
+  | [_] => true
+  | a :: b :: rest => decide (a < b) && strictIncInt (b :: rest)
+
+/-- the count map has one entry per key that occurs, carrying the number of its occurrences -/
+def countByOk (keys : List Int) (o : List (Int × Nat)) : Bool :=
+  strictIncInt (o.map (·.1))
+  && o.all (fun p => p.2 == keys.count p.1 && decide (1 ≤ p.2))
+  && keys.all (fun k => o.any (fun p => p.1 == k))
+
+/-- `r` is the order statistic of rank `idx` (0-based) of `v`: fewer than or exactly `idx` values lie strictly below it,
+more than `idx` values are ≤ it -/
+def rankOk (v : List Int) (idx : Nat) (r : Int) : Bool :=
+  v.contains r && decide (v.countP (fun x => decide (x < r)) ≤ idx) && decide (idx < v.countP (fun x => decide (x ≤ r)))
+
+def pctOk (v : List Int) (p : Nat) : Option Int → Bool
+  | none => v.isEmpty
+  | some r => !v.isEmpty && rankOk v ((p * (v.length - 1) + 50) / 100) r
+
+def agg2Ok (es : List AEv) (a : Agg2) : Bool :=
+  a.first == es.head?.map (·.id)
+  && a.last == es.getLast?.map (·.id)
+  && a.distinct == distinctCount ((es.map (·.v)).filter (· ≠ .missing))
+  && countByOk (es.filterMap (·.v.key)) a.countBy
+  && a.pcts.length == 5
+  && (a.pcts.zip [0, 25, 50, 75, 100]).all (fun q => pctOk (avals es) q.2 q.1)
+  && a.stdDefined == decide (2 ≤ (avals es).length)
+
+def sortByKey (l : List (Int × Nat)) : List (Int × Nat) := l.mergeSort (fun a b => decide (a.1 ≤ b.1))
+
+def aggregate2 (es : List AEv) : Agg2 :=
+  { first := aggFirst es, last := aggLast es, distinct := aggCountDistinct es,
+    countBy := sortByKey (aggCountBy es),
+    pcts := [0, 25, 50, 75, 100].map (fun p => aggPercentile p es),
+    stdDefined := aggStdDevDefined es }
+
 end C12
